@@ -207,4 +207,152 @@ theorem simpleDedup_inv (items : List (Nat × Doc)) : DedupInv items (simpleDedu
   have := gen items [] [] ⟨by simp, by simp, by simp⟩
   simpa [simpleDedup] using this
 
+
+/-! ### `sortedQueryWithDedup` against `simpleDedupWithoutSort` -/
+
+/-- forget the sort value an entry carries. -/
+def strip (e : Entry) : Entry := { e with sorted := none }
+
+theorem strip_key (e : Entry) : (strip e).doc.key = e.doc.key := rfl
+
+theorem lookupE_map_strip (es : List Entry) (k : String) :
+    lookupE (es.map strip) k = (lookupE es k).map strip := by
+  induction es with
+  | nil => rfl
+  | cons e rest ih =>
+    have ih' : List.find? (fun e => e.doc.key == k) (List.map strip rest) =
+        Option.map strip (List.find? (fun e => e.doc.key == k) rest) := ih
+    by_cases h : e.doc.key = k
+    · simp [lookupE, List.find?_cons, strip_key, h]
+    · have h' : (e.doc.key == k) = false := by simp [h]
+      simp only [lookupE, List.map_cons, List.find?_cons, strip_key, h', ih']
+
+theorem replaceE_map_strip (es : List Entry) (e : Entry) :
+    (replaceE es e).map strip = replaceE (es.map strip) (strip e) := by
+  simp only [replaceE, List.map_map]
+  apply List.map_congr_left
+  intro x _
+  simp only [Function.comp, strip_key]
+  by_cases h : x.doc.key = e.doc.key <;> simp [h]
+
+def dropSort (it : Nat × Doc × Option String) : Nat × Doc := (it.1, it.2.1)
+
+/-- the `seenIDs` map of the sorted variant evolves exactly like the map of the unsorted one. -/
+theorem sortedStep_seen (desc : Bool) (seen buf : List Entry) (it : Nat × Doc × Option String) :
+    (sortedStep desc (seen, buf) it).1.map strip = simpleStep (seen.map strip) (dropSort it) := by
+  obtain ⟨n, p, sv⟩ := it
+  simp only [sortedStep, simpleStep, dropSort, lookupE_map_strip]
+  cases hl : lookupE seen p.key with
+  | none => simp [strip]
+  | some e =>
+    simp only [Option.map_some]
+    by_cases h1 : p.rev = e.doc.rev
+    · have a : (p.rev == e.doc.rev) = true := by simp [h1]
+      have b : ¬ (strip e).doc.rev < p.rev := by simp [strip, h1]
+      have c : ((strip e).doc.rev == p.rev) = true := by simp [strip, h1]
+      simp only [a, if_true, b, if_false, c, replaceE_map_strip]
+      congr 1
+    · by_cases h2 : p.rev < e.doc.rev
+      · have a : (p.rev == e.doc.rev) = false := by simp [h1]
+        have b : ¬ (strip e).doc.rev < p.rev := by simp [strip]; omega
+        have c : ((strip e).doc.rev == p.rev) = false := by simp [strip]; omega
+        simp [a, h2, b, c]
+      · have a : (p.rev == e.doc.rev) = false := by simp [h1]
+        have b : (strip e).doc.rev < p.rev := by simp [strip]; omega
+        simp only [a, Bool.false_eq_true, if_false, h2, b, if_true, replaceE_map_strip]
+        congr 1
+
+theorem insertAt_perm (buf : List Entry) (e : Entry) (pos : Nat) : (insertAt buf e pos).Perm (e :: buf) := by
+  simp only [insertAt]
+  have h1 : (buf.take pos ++ [e] ++ buf.drop pos).Perm (e :: (buf.take pos ++ buf.drop pos)) := by
+    rw [List.append_assoc]
+    exact List.perm_middle
+  rw [List.take_append_drop] at h1
+  exact h1
+
+theorem replaceE_perm {seen : List Entry} {ne : Entry} (hnd : (seen.map (fun x => x.doc.key)).Nodup)
+    (hex : ∃ x ∈ seen, x.doc.key = ne.doc.key) : (replaceE seen ne).Perm (ne :: removeKey seen ne.doc.key) := by
+  induction seen with
+  | nil => obtain ⟨x, hx, _⟩ := hex; simp at hx
+  | cons a rest ih =>
+    simp only [List.map_cons, List.nodup_cons, List.mem_map, not_exists, not_and] at hnd
+    by_cases ha : a.doc.key = ne.doc.key
+    · -- `a` is the one; nothing else in `rest` has this key
+      have hrest : ∀ x ∈ rest, x.doc.key ≠ ne.doc.key := fun x hx hk => hnd.1 x hx (hk.trans ha.symm)
+      have e1 : replaceE rest ne = rest := by
+        simp only [replaceE]
+        conv => rhs; rw [← List.map_id rest]
+        apply List.map_congr_left
+        intro x hx; simp [hrest x hx]
+      have e2 : removeKey rest ne.doc.key = rest := by
+        simp only [removeKey, List.filter_eq_self]
+        intro x hx; simp [hrest x hx]
+      have e1' : replaceE (a :: rest) ne = ne :: replaceE rest ne := by simp [replaceE, ha]
+      have e2' : removeKey (a :: rest) ne.doc.key = removeKey rest ne.doc.key := by simp [removeKey, ha]
+      rw [e1', e2', e1, e2]
+    · obtain ⟨x, hx, hxk⟩ := hex
+      have hx' : x ∈ rest := by
+        simp only [List.mem_cons] at hx
+        rcases hx with rfl | hx
+        · exact absurd hxk ha
+        · exact hx
+      have := ih hnd.2 ⟨x, hx', hxk⟩
+      have e1' : replaceE (a :: rest) ne = a :: replaceE rest ne := by simp [replaceE, ha]
+      have e2' : removeKey (a :: rest) ne.doc.key = a :: removeKey rest ne.doc.key := by simp [removeKey, ha]
+      rw [e1', e2']
+      exact (List.Perm.cons a this).trans (List.Perm.swap ne a _)
+
+/-- loop invariant of `sortedQueryWithDedup`: `seenIDs` is what the unsorted de-duplication computes on the same
+    answers, and the result buffer holds exactly the entries of `seenIDs`. -/
+structure SortedInv (items : List (Nat × Doc × Option String)) (st : List Entry × List Entry) : Prop where
+  seen : st.1.map strip = simpleDedup (items.map dropSort)
+  buf : st.2.Perm st.1
+
+theorem keys_strip (es : List Entry) : (es.map strip).map (fun x => x.doc.key) = es.map (fun x => x.doc.key) := by
+  simp [List.map_map, Function.comp, strip]
+
+theorem sortedStep_inv (desc : Bool) {items : List (Nat × Doc × Option String)} {st : List Entry × List Entry}
+    (h : SortedInv items st) (it : Nat × Doc × Option String) :
+    SortedInv (items ++ [it]) (sortedStep desc st it) := by
+  obtain ⟨seen, buf⟩ := st
+  have hs := h.seen
+  have hb : buf.Perm seen := h.buf
+  simp only at hs
+  constructor
+  · rw [sortedStep_seen, hs]
+    simp [simpleDedup, List.foldl_append]
+  · have hnd : (seen.map (fun x => x.doc.key)).Nodup := by
+      rw [← keys_strip, hs]; exact (simpleDedup_inv _).nodup
+    obtain ⟨n, p, sv⟩ := it
+    simp only [sortedStep]
+    cases hl : lookupE seen p.key with
+    | none =>
+      simp only []
+      exact (insertAt_perm _ _ _).trans ((List.Perm.cons _ hb).trans (List.perm_append_singleton _ _).symm)
+    | some e =>
+      obtain ⟨he, hek⟩ := lookupE_some hl
+      simp only []
+      split
+      · simp only [replaceE]; exact hb.map _
+      · split
+        · exact hb
+        · have hex : ∃ x ∈ seen, x.doc.key = p.key := ⟨e, he, hek⟩
+          refine (insertAt_perm _ _ _).trans ?_
+          have h1 : (removeKey buf p.key).Perm (removeKey seen p.key) := hb.filter _
+          exact ((List.Perm.cons _ h1)).trans (replaceE_perm (ne := { doc := p, nodes := [n], sorted := sv }) hnd hex).symm
+
+theorem sortedDedup_inv (desc : Bool) (items : List (Nat × Doc × Option String)) :
+    SortedInv items (items.foldl (sortedStep desc) ([], [])) := by
+  have gen : ∀ (rest done : List (Nat × Doc × Option String)) (st : List Entry × List Entry), SortedInv done st →
+      SortedInv (done ++ rest) (rest.foldl (sortedStep desc) st) := by
+    intro rest
+    induction rest with
+    | nil => intro done st h; simpa using h
+    | cons x xs ih =>
+      intro done st h
+      have := ih (done ++ [x]) (sortedStep desc st x) (sortedStep_inv desc h x)
+      simpa using this
+  have := gen items [] ([], []) ⟨by simp [simpleDedup], List.Perm.refl _⟩
+  simpa using this
+
 end Banyan.C18
